@@ -569,6 +569,151 @@ fn pair_call(u: &Uni, e: &str, role: &str) -> Option<Call> {
     }
 }
 
+// ---------------------------------------------------------------------------------------
+// farm / farm-with-locked-rewards  (deployment follows dex/farm/tests/farm_setup and
+// dex/farm-with-locked-rewards/tests/farm_with_locked_rewards_setup, by-name where possible)
+// ---------------------------------------------------------------------------------------
+const FARM_ROLES: [&str; 3] = ["ESDTRoleNFTCreate", "ESDTRoleNFTAddQuantity", "ESDTRoleNFTBurn"];
+
+fn hub_setup(bd: &mut Builder) {
+    bd.deploy("hub", "owner", "hub");
+    let _ = bd.ok("owner", "hub", "init", vec![], &[]);
+    let _ = bd.ok("user", "hub", "whitelist", vec![a_addr(&bd.ad("agent")), a_addr(&bd.ad("revoked")), a_addr(&bd.ad("blacklisted"))], &[]);
+    let _ = bd.ok("user", "hub", "removeWhitelist", vec![a_addr(&bd.ad("revoked"))], &[]);
+    let _ = bd.ok("owner", "hub", "blacklist", vec![a_addr(&bd.ad("blacklisted"))], &[]);
+}
+
+fn lock_options() -> Vec<Vec<u8>> {
+    vec![a_u64(360), a_u64(4000), a_u64(720), a_u64(6000), a_u64(1440), a_u64(8000)]
+}
+
+/// a real energy factory (used by fwlr, staking, and the `energy` group)
+fn energy_setup(bd: &mut Builder, base: &[u8]) {
+    bd.deploy("energy", "owner", "energy");
+    let mut args = vec![base.to_vec(), LEGACY.to_vec(), a_addr(&bd.ad("fresh_sc")), a_u64(0)];
+    args.extend(lock_options());
+    let _ = bd.ok("owner", "energy", "init", args, &[]);
+    bd.store("energy", b"lockedTokenId", LOCKED.to_vec());
+    let e = bd.ad("energy");
+    bd.vm.set_roles(&e, LOCKED, &["ESDTRoleNFTCreate", "ESDTRoleNFTAddQuantity", "ESDTRoleNFTBurn", "ESDTTransferRole"]);
+    bd.vm.set_roles(&e, base, &["ESDTRoleLocalMint", "ESDTRoleLocalBurn"]);
+    let _ = bd.ok("owner", "energy", "unpause", vec![], &[]);
+}
+
+fn last_nonce(bd: &Builder, who: &str, token: &[u8]) -> u64 {
+    bd.vm.nfts(&bd.ad(who), token).iter().map(|x| x.0).max().unwrap_or(0)
+}
+
+fn build_farm(vm: &mut Vm, c: &str, variant: &str, amt: u64) -> Uni {
+    let mut bd = Builder::new(vm);
+    let farming: &[u8] = if variant == "same" { REW } else { FARMING };
+    hub_setup(&mut bd);
+    if c == "farm" {
+        bd.deploy("energy", "owner", "efmock");
+        let _ = bd.ok("owner", "energy", "init", vec![], &[]);
+    } else {
+        energy_setup(&mut bd, REW);
+    }
+    bd.deploy("farm", "owner", c);
+    let _ = bd.ok("owner", "farm", "init", vec![REW.to_vec(), farming.to_vec(), a_u64(1_000_000_000_000), a_addr(&Address::zero()),
+        a_addr(&bd.ad("owner")), a_addr(&bd.ad("admin"))], &[]);
+    let farm = bd.ad("farm");
+    if variant != "notoken" {
+        bd.store("farm", b"farm_token_id", FARMTOK.to_vec());
+    }
+    bd.vm.set_roles(&farm, FARMTOK, &FARM_ROLES);
+    bd.vm.set_roles(&farm, farming, &["ESDTRoleLocalBurn", "ESDTRoleLocalMint"]);
+    bd.vm.set_roles(&farm, REW, &["ESDTRoleLocalMint", "ESDTRoleLocalBurn"]);
+    let big = BigUint::from(10u64).pow(15);
+    bd.fund_all(farming, &big);
+    let _ = bd.ok("owner", "farm", "setEnergyFactoryAddress", vec![a_addr(&bd.ad("energy"))], &[]);
+    let _ = bd.ok("owner", "farm", "setPermissionsHubAddress", vec![a_addr(&bd.ad("hub"))], &[]);
+    let _ = bd.ok("owner", "farm", "addToPauseWhitelist", vec![a_addr(&bd.ad("pauser"))], &[]);
+    let _ = bd.ok("owner", "farm", "addSCAddressToWhitelist", vec![a_addr(&bd.ad("wsc"))], &[]);
+    if c == "fwlr" {
+        let _ = bd.ok("owner", "farm", "setLockingScAddress", vec![a_addr(&bd.ad("energy"))], &[]);
+        let _ = bd.ok("owner", "farm", "setLockEpochs", vec![a_u64(360)], &[]);
+        let _ = bd.ok("owner", "energy", "addSCAddressToWhitelist", vec![a_addr(&farm)], &[]);
+    }
+    let _ = bd.ok("admin", "farm", "setPerBlockRewardAmount", vec![a_u64(1000)], &[]);
+    let _ = bd.ok("admin", "farm", "setBoostedYieldsRewardsPercentage", vec![a_u64(2500)], &[]);
+    let _ = bd.ok("admin", "farm", "setBoostedYieldsFactors", vec![a_u64(10), a_u64(3), a_u64(2), a_u64(1), a_u64(1)], &[]);
+    if variant != "notoken" {
+        let _ = bd.ok("pauser", "farm", "resume", vec![], &[]);
+        bd.vm.set_nonce(10);
+        let _ = bd.ok("admin", "farm", "startProduceRewards", vec![], &[]);
+        let pos = b(1_000_000 + amt);
+        for r in ROLES {
+            for k in ["pos1", "pos2"] {
+                let _ = bd.ok(r, "farm", "enterFarm", vec![], &[esdt(farming, 0, &pos)]);
+                let n = last_nonce(&bd, r, FARMTOK);
+                bd.n.insert(format!("{k}.{r}"), n);
+            }
+        }
+        // positions OWNED by `user` but held by each role (for the on-behalf endpoints)
+        for r in ROLES {
+            let _ = bd.ok("user", "farm", "enterFarm", vec![], &[esdt(farming, 0, &pos)]);
+            let n = last_nonce(&bd, "user", FARMTOK);
+            if r != "user" {
+                let (f, t) = (bd.ad("user"), bd.ad(r));
+                bd.vm.move_esdt(&f, &t, FARMTOK, n, &pos);
+            }
+            bd.n.insert(format!("upos.{r}"), n);
+        }
+        bd.vm.set_nonce(20);
+        let _ = bd.ok("admin", "farm", "endProduceRewards", vec![], &[]);
+        bd.vm.set_nonce(25);
+        bd.vm.set_epoch(50);
+        bd.n.insert("pos".into(), 1_000_000 + amt);
+    }
+    bd.n.insert("amt".into(), 1000 + amt % 1000);
+    bd.finish("farm")
+}
+
+fn farm_call(u: &Uni, c: &str, e: &str, role: &str, same: bool) -> Option<Call> {
+    let amt = b(u.num("amt"));
+    let me = u.addr(role);
+    let farming: &[u8] = if same { REW } else { FARMING };
+    let pos = |k: &str| -> TxTokenTransfer { esdt(FARMTOK, u.num(&format!("{k}.{role}")), &b(u.num("pos"))) };
+    match e {
+        "enterFarm" => callp(vec![], vec![esdt(farming, 0, &amt)]),
+        "enterFarm@orig" => callp(vec![a_addr(u.addr("user"))], vec![esdt(farming, 0, &amt)]),
+        "claimRewards" | "compoundRewards" | "exitFarm" => callp(vec![], vec![pos("pos1")]),
+        "claimRewards@orig" | "compoundRewards@orig" | "exitFarm@orig" => callp(vec![a_addr(u.addr("user"))], vec![pos("upos")]),
+        "mergeFarmTokens" => callp(vec![], vec![pos("pos1"), pos("pos2")]),
+        "mergeFarmTokens@orig" => callp(vec![a_addr(me)], vec![pos("pos1"), pos("pos2")]),
+        "claimBoostedRewards" => call(vec![]),
+        "claimBoostedRewards@other" => call(vec![a_addr(u.addr("user"))]),
+        "startProduceRewards" | "endProduceRewards" | "collectUndistributedBoostedRewards" => call(vec![]),
+        "setPerBlockRewardAmount" => call(vec![a_u64(2000)]),
+        "setBoostedYieldsRewardsPercentage" => call(vec![a_u64(3000)]),
+        "registerFarmToken" => Some(Call { args: vec![b"FarmToken".to_vec(), b"FARM".to_vec(), a_u64(18)], pay: vec![], egld: b(50_000_000) }),
+        "addToPauseWhitelist" | "addAdmin" | "addSCAddressToWhitelist" => call(vec![a_addr(u.addr("fresh"))]),
+        "removeFromPauseWhitelist" => call(vec![a_addr(u.addr("pauser"))]),
+        "removeAdmin" => call(vec![a_addr(u.addr("admin"))]),
+        "removeSCAddressFromWhitelist" => call(vec![a_addr(u.addr("wsc"))]),
+        "updateOwnerOrAdmin" => call(vec![a_addr(u.addr("admin"))]),
+        "pause" | "resume" => call(vec![]),
+        "setPermissionsHubAddress" => call(vec![a_addr(u.addr("hub"))]),
+        "set_penalty_percent" => call(vec![a_u64(100)]),
+        "set_minimum_farming_epochs" => call(vec![a_u64(3)]),
+        "set_burn_gas_limit" => call(vec![a_u64(100)]),
+        "enterFarmOnBehalf" => callp(vec![a_addr(u.addr("user"))], vec![esdt(farming, 0, &amt)]),
+        "claimRewardsOnBehalf" => callp(vec![], vec![pos("upos")]),
+        "setBoostedYieldsFactors" => call(vec![a_u64(10), a_u64(3), a_u64(2), a_u64(1), a_u64(1)]),
+        "updateEnergyForUser" => call(vec![a_addr(u.addr("fresh"))]),
+        "setEnergyFactoryAddress" | "setLockingScAddress" => call(vec![a_addr(u.addr("energy"))]),
+        "setLockEpochs" => call(vec![a_u64(720)]),
+        "calculateRewardsForGivenPosition" => {
+            let n = u.num(&format!("pos1.{role}"));
+            let attrs = u.snap.accounts.get(&vma(me)).and_then(|a| a.esdt.get_by_identifier(FARMTOK))
+                .and_then(|d| d.instances.get_by_nonce(n)).map(|i| i.metadata.attributes.clone()).unwrap_or_default();
+            if c == "staking" { call(vec![a_u64(1000), attrs]) } else { call(vec![a_addr(me), a_u64(1000), attrs]) }
+        }
+        _ => None,
+    }
+}
+
 // =======================================================================================
 // the world
 // =======================================================================================
@@ -606,6 +751,12 @@ fn class_of(abi: &ContractAbi, c: &str, e: &str) -> Class {
         ("pair", "swapTokensFixedInput" | "swapTokensFixedOutput") => Some(UserFunds),
         ("pair", "removeLiquidityAndBuyBackAndBurnToken" | "swapNoFeeAndForward") => Some(ContractOnly),
         ("pair", "updateAndGetTokensForGivenPositionWithSafePrice" | "updateAndGetSafePrice") => Some(View),
+        (_, "claimBoostedRewards") if e.contains("@other") => Some(Never),
+        ("farm" | "fwlr" | "staking", "enterFarm" | "claimRewards" | "compoundRewards" | "exitFarm" | "mergeFarmTokens" | "claimBoostedRewards"
+            | "stakeFarm" | "unstakeFarm" | "unbondFarm") => Some(UserFunds),
+        ("farm" | "fwlr" | "staking", "enterFarmOnBehalf" | "claimRewardsOnBehalf" | "stakeFarmOnBehalf") => Some(OnBehalfHub),
+        ("staking", "stakeFarmThroughProxy" | "claimRewardsWithNewValue" | "unstakeFarmThroughProxy") => Some(ContractOnly),
+        ("farm" | "fwlr" | "staking" | "fees", "updateEnergyForUser") => Some(Open),
         _ => None,
     };
     if let Some(k) = explicit {
@@ -622,12 +773,20 @@ fn variant_of(c: &str, e: &str) -> &'static str {
         ("pair", "addInitialLiquidity") => "fresh",
         ("pair", "addInitialLiquidity@adder") => "adder",
         ("pair", "setLpTokenIdentifier") => "nolp",
+        ("farm", "compoundRewards" | "compoundRewards@orig") => "same",
+        ("farm" | "fwlr" | "staking", "registerFarmToken") => "notoken",
         _ => "std",
     }
 }
 
 /// endpoint variants exercised in addition to the plain ABI endpoints
-const VARIANTS: [(&str, &str); 1] = [("pair", "addInitialLiquidity@adder")];
+const VARIANTS: [(&str, &str); 12] = [
+    ("pair", "addInitialLiquidity@adder"),
+    ("farm", "enterFarm@orig"), ("farm", "claimRewards@orig"), ("farm", "compoundRewards@orig"), ("farm", "exitFarm@orig"),
+    ("farm", "mergeFarmTokens@orig"), ("farm", "claimBoostedRewards@other"),
+    ("fwlr", "enterFarm@orig"), ("fwlr", "claimRewards@orig"), ("fwlr", "exitFarm@orig"), ("fwlr", "mergeFarmTokens@orig"),
+    ("fwlr", "claimBoostedRewards@other"),
+];
 
 struct World {
     vm: Vm,
@@ -655,6 +814,7 @@ impl World {
         }
         let u = match c {
             "pair" => build_pair(&mut self.vm, variant, self.amt),
+            "farm" | "fwlr" => build_farm(&mut self.vm, c, variant, self.amt),
             _ => panic!("no universe for {c}"),
         };
         self.bases.insert(key, u.clone());
@@ -693,10 +853,14 @@ impl World {
     fn build_call(&self, u: &Uni, c: &str, e: &str, role: &str) -> Option<Call> {
         let specific = match c {
             "pair" => pair_call(u, e, role),
+            "farm" | "fwlr" => farm_call(u, c, e, role, variant_of(c, e) == "same"),
             _ => None,
         };
         if specific.is_some() {
             return specific;
+        }
+        if let Some(x) = self.typed_args(u, c, e, role) {
+            return call(x);
         }
         // endpoints without inputs need nothing
         let ep = self.abis[c].endpoints.iter().find(|x| x.name == base_name(e))?;
@@ -704,6 +868,24 @@ impl World {
             return call(vec![]);
         }
         None
+    }
+
+    /// arguments of a non-payable endpoint whose inputs are all of simple types (mostly views)
+    fn typed_args(&self, u: &Uni, c: &str, e: &str, role: &str) -> Option<Vec<Vec<u8>>> {
+        let ep = self.abis[c].endpoints.iter().find(|x| x.name == base_name(e))?;
+        if !is_readonly(ep) {
+            return None;
+        }
+        let mut args = vec![];
+        for i in ep.inputs.iter() {
+            args.push(match i.type_names.abi.as_str() {
+                "Address" => a_addr(u.addr(role)),
+                "u32" | "u64" | "usize" => a_u64(1),
+                "BigUint" => a_u64(1000),
+                _ => return None,
+            });
+        }
+        Some(args)
     }
 
     /// best-effort arguments for a call that must be REJECTED before they matter
